@@ -18,16 +18,21 @@ OBLIGATIONS (name — witness keys)
         delay + the stage's input keys (kind, depth, accept, apex, coordsys | depth, present |
         pieces, bottom_up, mosaic, seed)
   (parallel == 1 is the serial mode; there the injected exception itself must reach the caller.)
+  fail.exc names the class of the injected exception (absent: the harness's own Exception subclass); see rt.c03.EXC_CLASSES.
 
 BOUNDS
   quick   : walk: generic depth 2 and one filtered depth-3 pyramid, fault at a tile just above the
             leaves / a middle tile / the apex; visit: 4, 16 and 64 leaves (more than the queue
             capacity), fault at the first, a middle, the last leaf; transform depth 2, three
             positions; multi_tan 4 inputs, first and last; multi_wcs 2 inputs, first and last;
-            workers {1,2,3}.  Watchdog 20 s (multi_wcs 45 s).
+            workers {1,2,3}.  Exception classes: the fault raised as RuntimeError, KeyError, ValueError,
+            OSError(ENOSPC), FileNotFoundError, PermissionError, queue.Empty, queue.Full, ZeroDivisionError,
+            EOFError, BrokenPipeError, TimeoutError, AssertionError (beside the custom Exception subclass) in
+            EVERY stage, serially and with 2 or 3 workers.  Watchdog 20 s (multi_wcs 45 s).
   thorough: fault at EVERY single item of: walk generic depth 2 (workers 1,2,3,5), filtered depth 3
             (1,2,3); visit generic depth 2 (1,2,3); transform depth 1 (1,2,3) and depth 2 (1,2);
-            multi_tan 4 inputs (1,2,3); multi_wcs 3 inputs (1,2,3).  Watchdog 40 s (60 s).
+            multi_tan 4 inputs (1,2,3); multi_wcs 3 inputs (1,2,3); every exception class x two fault
+            positions x workers (1,2,3) in every stage.  Watchdog 40 s (60 s).
 
 TRUSTED: watchdog expiry stands for non-termination; multiprocessing start method is fork.
 """
@@ -185,6 +190,40 @@ def build_cases(rng, thorough):
             long_cases.append({"stage": "multi_wcs", "pieces": pcs, "seed": 3, "parallel": w, "delay": None, "schedule": "os", "sched": None,
                                "fail": {"image": k}})
     bounds.append("multi_wcs: %d inputs, reprojection fault for %s input; workers %s" % (len(pcs), "each" if thorough else "the first / last", "1,2,3" if thorough else "1,2"))
+    # ---- exception classes: "an error", whatever its class, in every stage (the cases above raise the harness's own
+    # Exception subclass; here the same single fault is raised as each of the other classes of rt.c03.EXC_CLASSES)
+    classes = [e for e in S.EXC_CLASSES if e != "InjectedError"]
+    templates = {
+        "walk": [_shape_case("walk", "g", 2, [], None, 2, (1, 1, 0), None), _shape_case("walk", "g", 2, [], None, 2, (0, 0, 0), None)],
+        "visit": [_shape_case("visit", "g", 2, [], None, 2, (2, 1, 2), None), _shape_case("visit", "t", 3, [], None, 2, (3, 7, 7), None)],
+        "transform": [tcase(2, 2, (1, 1, 1)), tcase(2, 2, (2, 0, 0))],
+        "multi_tan": [mcase(2, four_tiles[3]), mcase(2, four_tiles[0])],
+    }
+    n_cls = 0
+    for stage, tmpl in templates.items():
+        for k, exc in enumerate(classes):
+            if thorough:
+                combos = [(t, w) for t in tmpl for w in W]
+            else:
+                combos = [(tmpl[0], 1), (tmpl[k % 2], 2 + k % 2)]
+            for t, w in combos:
+                c = dict(t)
+                c["parallel"] = w
+                c["delay"] = dl() if stage != "multi_tan" else None
+                c["fail"] = dict(t["fail"], exc=exc)
+                cases.append(c)
+                n_cls += 1
+    for k, exc in enumerate(classes):
+        for w in (W if thorough else (1, 2)):
+            if not thorough and w == 1 and k % 4:
+                continue            # serial multi_wcs: every fourth class only (each run costs seconds; serial propagation is class-blind)
+            long_cases.append({"stage": "multi_wcs", "pieces": pcs, "seed": 3, "parallel": w, "delay": None, "schedule": "os", "sched": None,
+                               "fail": {"image": (k % len(pcs)), "exc": exc}})
+            n_cls += 1
+    bounds.append("exception classes: the single fault raised as each of %s (beside the harness's own Exception subclass) in each of walk, "
+                  "visit_leaves, transform, multi_tan, multi_wcs: %s; %d cases" % (
+                      ", ".join(classes), "two fault positions x workers 1,2,3" if thorough else
+                      "serially and with 2 or 3 workers (multi_wcs: 2 workers, serially every fourth class)", n_cls))
     for i, c in enumerate(long_cases + cases):
         c["id"] = i
     return long_cases, cases, bounds
@@ -219,7 +258,7 @@ def run(ctx):
     out = {}
 
     def long_run():
-        out["long"] = B.dispatch("rt.c03", "stage_case", None, os.path.join(ctx.workdir, "long"), wd_long, max_workers=12, max_timeouts=10 ** 6,
+        out["long"] = B.dispatch("rt.c03", "stage_case", None, os.path.join(ctx.workdir, "long"), wd_long, max_workers=32, max_timeouts=10 ** 6,
                                  est_case_secs=10.0, batches=[[dict(c)] for c in long_cases])
     t = threading.Thread(target=long_run)
     t.start()
